@@ -5,7 +5,7 @@ import ast
 import re
 
 from .. import anchors as A
-from ..model import AnalysisError, FuncInfo, Project, call_name, kwarg, walk_local
+from ..model import AnalysisError, FuncInfo, Project, call_name, kwarg, local_values, walk_local
 from ..paths import PState, PathAnalysis, run_paths, subst_text
 from ..report import Report
 from ..typed import typed_facts
@@ -28,6 +28,47 @@ def check(P: Project, R: Report) -> None:
     R.extra["mypy"] = facts.get("mypy")
     R.extra["mypy_cached"] = facts.get("cached")
     R.extra["mypy_total_errors"] = facts.get("n_errors")
+
+    # ------------------------------------------------------------------ R7: configured numbers reach the library as numbers
+    R.rule("R7", "a timeout (or any deadline) an entry point takes from the configuration file reaches the connection and the handshake as a number: the file may spell it as an int, a float or a string-number, so a value read from the parsed entry is converted with float() before it is handed on")
+    n_t = 0
+    for f in sorted(P.funcs.values(), key=lambda f: f.fq):
+        if f.module.name not in tuple(ENTRY_MODULES) + ("chuk_mcp.config",):
+            continue
+        lvf = local_values(f.node)
+
+        def raw_config_number(e, depth=0):
+            """text of the configuration read if `e` can be a raw entry value (no float() on the way), else ''"""
+            if depth > 4 or e is None:
+                return ""
+            if isinstance(e, ast.Call) and call_name(e) in ("float", "int"):
+                return ""
+            if isinstance(e, ast.Call) and isinstance(e.func, ast.Attribute) and e.func.attr == "get" and e.args and isinstance(e.args[0], ast.Constant) and "timeout" in str(e.args[0].value).lower():
+                return ast.unparse(e)
+            if isinstance(e, ast.Subscript) and isinstance(e.slice, ast.Constant) and "timeout" in str(e.slice.value).lower():
+                return ast.unparse(e)
+            if isinstance(e, ast.Name):
+                for v in lvf.get(e.id, []):
+                    r_ = raw_config_number(v, depth + 1)
+                    if r_:
+                        return r_
+            if isinstance(e, (ast.IfExp, ast.BoolOp)):
+                for v in ([e.body, e.orelse] if isinstance(e, ast.IfExp) else e.values):
+                    r_ = raw_config_number(v, depth + 1)
+                    if r_:
+                        return r_
+            return ""
+
+        for c in walk_local(f.node):
+            if not isinstance(c, ast.Call) or call_name(c) in ("float", "int", "print", "str") or call_name(c).startswith(("logging.", "logger.")):
+                continue
+            for k in c.keywords:
+                if k.arg and "timeout" in k.arg.lower():
+                    n_t += 1
+                    raw = raw_config_number(k.value)
+                    R.ob("R7", f"{f.qual}: `{call_name(c)}({k.arg}=…)` gets a number", not raw, f"{f.module.rel}:{c.lineno}",
+                         f"`{k.arg}={ast.unparse(k.value)[:40]}` is `{raw[:60]}` as read from the file: a timeout written as a string-number (\"30\") reaches anyio's deadline arithmetic as a str, the handshake raises TypeError and that server is never initialised")
+    R.extra["timeout_arguments_at_entry_points"] = n_t
 
     # ------------------------------------------------------------------ R1
     seen_entry = set()
